@@ -1,7 +1,15 @@
 #!/bin/sh
-# MANIFEST.setup_cmd: regenerate the translator tables from /repo, then build models, proofs and the driver (offline).
-set -e
+# MANIFEST.setup_cmd: regenerate the translator tables from /repo, then build the driver, every property module and
+# finally everything else (offline).  A module that does not build affects only the property that needs it: the
+# per-property builds continue, and the exit code is non-zero only if the driver or a property module failed.
 cd "$(dirname "$0")/.."
-/venv/bin/python tools/regen.py
+/venv/bin/python tools/regen.py || exit 2
 cd lean
-lake build
+rc=0
+flock .build.lock lake build cdd_model || rc=1
+for f in CddVerif/Properties/C[0-9][0-9].lean; do
+  m=$(echo "$f" | sed 's#/#.#g; s#\.lean$##')
+  flock .build.lock lake build "$m" || { echo "setup: $m does not build"; rc=1; }
+done
+flock .build.lock lake build || echo "setup: some module outside the property modules does not build (see above)"
+exit $rc
